@@ -121,7 +121,7 @@ var props = map[string]*propDef{
 		}, baseAssumptions...),
 		Harnesses: []harnessDef{
 			{Name: "proto.VerifC15GenLeaves", DualTags: "verif,purego", Quick: map[string]int{"maxrows": 2}, Thorough: map[string]int{"maxrows": 3}, Must: []string{"dual:encoded", "dual:written", "dual:decode-err", "dual:rows"}},
-			{Name: "proto.VerifC15BoolUUID", DualTags: "verif,purego", Quick: map[string]int{"maxrows": 2}, Thorough: map[string]int{"maxrows": 3}, Must: []string{"dual:encoded", "dual:written", "dual:decode-err", "dual:rows", "dual:row"}},
+			{Name: "proto.VerifC15BoolUUID", DualTags: "verif,purego", Quick: map[string]int{"maxrows": 2, "minprec": 3, "maxprec": 3}, Thorough: map[string]int{"maxrows": 3, "minprec": 3, "maxprec": 3}, Must: []string{"dual:encoded", "dual:written", "dual:decode-err", "dual:rows", "dual:row"}},
 		},
 	},
 	"C06": {
@@ -193,6 +193,7 @@ var props = map[string]*propDef{
 			{Name: "proto.VerifC18Bind", Quick: map[string]int{"maxcols": 1}, Thorough: map[string]int{"maxcols": 2}, Optional: []string{"compatible-block-rejected"}},
 			{Name: "proto.VerifC18Bind", OnlyTier: "quick", Quick: map[string]int{"maxcols": 2, "srvmax": 4, "tgtmax": 4}, Optional: []string{"compatible-block-rejected", "enum-adopted", "precision-adopted"}},
 			{Name: "proto.VerifC18Names"},
+			{Name: "proto.VerifC18Decimal"},
 		},
 	},
 	"C05": {
@@ -207,6 +208,7 @@ var props = map[string]*propDef{
 			{Name: "compress.VerifC05Header", Cfg: c05cfg, Quick: map[string]int{"tail": 2}, Thorough: map[string]int{"tail": 6}},
 			{Name: "compress.VerifC05Corrupt", Quick: map[string]int{"maxlen": 2}, Thorough: map[string]int{"maxlen": 6}},
 			{Name: "compress.VerifC05Truncated", Quick: map[string]int{"maxlen": 2}, Thorough: map[string]int{"maxlen": 5}},
+			{Name: "ch.VerifC05Client"},
 		},
 	},
 	"C08": {
@@ -220,6 +222,7 @@ var props = map[string]*propDef{
 			{Name: "proto.VerifC08PlainLeaves", Must: mustC08, Quick: map[string]int{"maskbytes": 5, "maxcutback": 0, "maxrows": 1, "minstr": 1, "maxstr": 1, "minprec": 3, "maxprec": 3, "minscale": 3, "maxscale": 3}, Thorough: map[string]int{"maxrows": 2, "maxstr": 1}},
 			{Name: "proto.VerifC08Composites", Must: mustC08, Quick: map[string]int{"maskbytes": 5, "maxcutback": 0, "maxrows": 1, "minstr": 1, "maxstr": 1, "mininner": 1, "maxinner": 1}, Thorough: map[string]int{"maxrows": 2, "maxstr": 1, "maxinner": 1}},
 			{Name: "compress.VerifC08Frames", Quick: map[string]int{"maxlen": 1}, Thorough: map[string]int{"maxlen": 3}},
+			{Name: "ch.VerifC08ClientIdle"},
 		},
 	},
 	"C02": {
